@@ -92,7 +92,17 @@ func worldC01(w *World) {
 	if w.Tier == "thorough" {
 		sizes = append(sizes, 1<<20, 3<<20)
 	}
-	clients := make([]*c01Client, n)
+	// some clients send several requests one after the other on a kept-alive connection
+	extra := 0
+	owner := make([]int, 0, n+8)
+	for i := 0; i < n; i++ {
+		owner = append(owner, i)
+		if extra < 8 && t.Rare(1, 4, "keepalive-followup") {
+			owner = append(owner, i)
+			extra++
+		}
+	}
+	clients := make([]*c01Client, len(owner))
 	for i := range clients {
 		c := &c01Client{tok: fmt.Sprintf("tok%03d-%d", i, t.Choice(1000, "tokrand"))}
 		c.method = []string{"GET", "POST", "PUT"}[t.Choice(3, "method")]
@@ -147,12 +157,35 @@ func worldC01(w *World) {
 	startAgent(w)
 
 	var wg sync.WaitGroup
+	byOwner := map[int][]*c01Client{}
 	for i, c := range clients {
+		byOwner[owner[i]] = append(byOwner[owner[i]], c)
+	}
+	for oi := 0; oi < n; oi++ {
+		group := byOwner[oi]
 		wg.Add(1)
-		c := c
-		w.K.Spawn(fmt.Sprintf("client%d", i), func() {
+		w.K.Spawn(fmt.Sprintf("client%d", oi), func() {
 			defer wg.Done()
 			cl := w.Client()
+			for _, c := range group {
+				c01Do(w, cl, c, clients)
+				if len(group) > 1 {
+					w.Probe("keepalive_followup_request")
+				}
+			}
+		})
+	}
+	w.K.Spawn("controller", func() {
+		wg.Wait()
+		w.K.Stop()
+	})
+	c01Finish(w, n, faulty, clients, seen)
+}
+
+// c01Do sends one client request and records what came back.
+func c01Do(w *World, cl *http.Client, c *c01Client, clients []*c01Client) {
+	{
+		{
 			var body io.Reader
 			if c.reqSize > 0 || c.method != "GET" {
 				body = bytes.NewReader(tokenBody(c.tok+"/req", c.reqSize))
@@ -161,6 +194,7 @@ func worldC01(w *World) {
 			req.Header.Set("X-Token", c.tok)
 			req.Header.Set("X-Resp-Size", strconv.Itoa(c.respSize))
 			req.Header.Set("X-Lat-Ms", strconv.Itoa(c.latMs))
+			cl.Timeout = 0
 			if c.abort {
 				cl.Timeout = time.Duration(1+len(c.tok)%3) * 500 * time.Millisecond
 			}
@@ -189,12 +223,11 @@ func worldC01(w *World) {
 				}
 			}
 			c.done = true
-		})
+		}
 	}
-	w.K.Spawn("controller", func() {
-		wg.Wait()
-		w.K.Stop()
-	})
+}
+
+func c01Finish(w *World, n int, faulty bool, clients []*c01Client, seen map[string]int) {
 	w.Sample = map[string]interface{}{"clients": n, "chaos": w.K.ChaosMult, "segpct": w.K.SegmentPct, "first": fmt.Sprintf("%s %s req=%d resp=%d lat=%dms abort=%v", clients[0].method, clients[0].tok, clients[0].reqSize, clients[0].respSize, clients[0].latMs, clients[0].abort)}
 
 	w.OnCheck(func() {
